@@ -103,6 +103,30 @@ CLAIMED = {
         "Trusted: rapid, Go scheduler for the concurrent part, the constant 64 for the no-subset case (see DESIGN.md).",
         "DESIGN.md 4/C14",
     ),
+    "C02": (
+        "property-based testing through the real handler chain on loopback HTTP against reference impersonation semantics (rapid, round trip through a stub upstream)",
+        "Generated-input search: authenticated identities with awkward bytes, every combination and casing of client Authorization / Impersonate-User / -Group / -Extra-* / other Impersonate-* headers written byte by byte on a real HTTP/1.1 connection, and authorizer deny sets; the reference semantics decide 401 / malformed / 403 / forwarded and the identity decoded by the stub upstream (as a kube-apiserver decodes it) must equal the effective identity; Authorization must be exactly the gateway credential; no other Impersonate-* header may arrive. Exploration.",
+        "Trusted: rapid, net/http, the reference decoder of the impersonation protocol (case folding of extra keys, implied groups). The authenticator/authorizer are scripted stubs injected through genericapiserver.Config.",
+        "DESIGN.md 4/C02",
+    ),
+    "C03": (
+        "model-based testing of spec/health/request histories through the real chain + controller + health checks with stub upstreams that log every request and probe (rapid state machine)",
+        "Generated-input search: histories of spec updates (servers, disabled flags, subsets), scripted health flips (trigger + wait), sequential requests, bursts racing with an update, triggers on disabled endpoints; every forwarded request must have reached an endpoint eligible under the model (before/after/mixed states for racing requests) and been answered by it; empty eligible set => 503 and nothing forwarded; disabled endpoints get no probe later than 300 ms after the disabling sync (probe period shortened to 20 ms by hook). Exploration.",
+        "Trusted: rapid, net/http loopback, the eligibility model (health = result of the gateway's last processed probe). Connection-reset probe answers are not scripted (client-go retries them inside one probe).",
+        "DESIGN.md 4/C03",
+    ),
+    "C04": (
+        "round-trip property-based testing through the real chain + dispatcher + reverse proxy (rapid), requests written byte by byte; Status well-formedness for terminated requests",
+        "Generated-input search: methods, k8s-shaped paths with escaped / unusual bytes, queries with repeated / malformed pairs, multi-valued and hop-by-hop headers, bodies up to 1 MiB (content-length / chunked) and scripted upstream replies (status 200-599, headers, bodies in flushed chunks); what the stub received must equal what was sent and what the client received must equal what the stub sent, modulo the stated allow-lists; seven termination classes must yield a decodable meta/v1 Status (JSON or protobuf as negotiated) with code == HTTP status, Retry-After where stated, and no forwarding. Exploration.",
+        "Trusted: rapid, net/http. Decoded-path equality; Upgrade requests, CORS headers and HTTP/2 are outside the generated domain.",
+        "DESIGN.md 4/C04",
+    ),
+    "C15": (
+        "property-based testing of removal timing plans through the real chain with streaming stub upstreams (rapid), interval oracle with generous thresholds",
+        "Generated-input search: plans (remove cluster / endpoint; before the target is sent, while the stub delays headers, after j streamed chunks; 0-3 bystander streams / held requests on other endpoints and clusters); the target must end at the client and at the stub within 2 s of the removal, new requests get 503 / never the removed endpoint, bystanders keep streaming for 300 ms and finish normally. Exploration; timing thresholds are an order of magnitude away from the measured behaviour (cut after < 1 ms).",
+        "Trusted: rapid, net/http loopback, wall clock for the 2 s / 300 ms thresholds (harness-side timeouts are inconclusive).",
+        "DESIGN.md 4/C15",
+    ),
 }
 
 PENDING = {}
